@@ -145,7 +145,8 @@ def h_sort_part_names(pi: int, d0: int, d1: int, d2: int) -> bool:
 
 
 def replay_h_sort_part_names(pi, d0, d1, d2):
-    return None, "no concrete driver"
+    ids = PERMS[pi]
+    return replay_h_sort_part_names_shared_ids(ids[0], ids[1], ids[2], d0, d1, d2)
 
 
 def h_sort_part_names_shared_ids(i0: int, i1: int, i2: int, d0: int, d1: int, d2: int) -> bool:
